@@ -106,8 +106,10 @@ CLAIMED["C11"] = dict(
          "edges, vertices level with the query), checks that the oracle is invariant under reversal and rotation, "
          "and the real LocatePointInRing / IsPointInRing / IsOnLine / PointIntersectsLine are run for every grid "
          "query point against the ring and its reversed, rotated, vertex-duplicated, XYZ / XYZM / Layout(5) "
-         "variants; TLC decides every answer.",
-    ref="DESIGN.md 3.7, 4-C11", note="Bounded: grid size and ring length of the .cfg. Trusted base: " + TBX,
+         "variants; TLC decides every answer. Seeded rings of 3-8 vertices on grids up to 4000 with query points on, one "
+         "step off and level with the edges are decided by TLC as well, and point-on-line over float inputs (one-decimal "
+         "ordinates, exactly-on, rounded-on and decimal-collinear families) is decided exactly by Apalache.",
+    ref="DESIGN.md 3.7, 4-C11, 13.1", note="Bounded: grid size and ring length of the .cfg. Trusted base: " + TBX,
     technique="TLA+ spec (ExactGeom!Locate, OnLine) + TLC exhaustive enumeration of rings; observation checking by TLC")
 CLAIMED["C12"] = dict(
     text="Model checking: ExactGeom!SegSegClass / SharedEnds / CrossPt define the classification, the overlap "
@@ -146,10 +148,12 @@ CLAIMED["C20"] = dict(
          "neighbours, as an exact rational comparison) - not how it is computed. TLC enumerates every sequence of "
          "0..K points on a 3x3 grid x 5 thresholds x stride 2..5, plus seeded sequences up to 200 points (collinear "
          "runs, loops, repeats); the returned indexes, the re-simplification of the result (fixed point) and the "
-         "input snapshot are decided by TLC.",
-    ref="DESIGN.md 3.7, 4-C20", note="Bounded: K; thresholds are exactly representable rationals. Trusted base: " + TBX,
-    technique="TLA+ spec (ExactGeom!ValidSimplification) + TLC exhaustive enumeration of point sequences; "
-              "observation checking by TLC")
+         "input snapshot are decided by TLC. The verif hook in dpWorker logs every processed interval; TLC validates the "
+         "trace against a state machine over the set of pending intervals (split exactly when a farthest point exceeds "
+         "the threshold, at a farthest point; order of processing and tie-breaking left open).",
+    ref="DESIGN.md 3.7, 4-C20, 13.2", note="Bounded: K; thresholds are exactly representable rationals. Trusted base: " + TBX,
+    technique="TLA+ spec (ExactGeom!ValidSimplification + interval state machine) + TLC exhaustive enumeration of point "
+              "sequences; observation checking and hook-trace validation by TLC")
 
 CLAIMED["C09"] = dict(
     text="Model checking: ExactSums states area (shoelace sum, counter-clockwise positive) and length as integer sums "
@@ -157,12 +161,14 @@ CLAIMED["C09"] = dict(
          "from a catalogue of rings / lines / polygons (empty ring, empty polygon, polygon with an empty ring, "
          "degenerate two-point ring at every position) for all 7 types x layouts, checks that two formulas for the "
          "area agree on the catalogue, and the real Area() / Length() of the whole geometry and of every part "
-         "accessor are decided exactly by TLC; a panic is a violation.",
-    ref="DESIGN.md 3.1, 3.7, 4-C09",
-    note="Bounded: catalogue and sequence length; only inputs on which the measures are exact in float64 (the "
-         "rounding-bound clause for ordinates up to 2^200 is not decided by this tier). Trusted base: " + TBX,
+         "accessor are decided exactly by TLC; a panic is a violation. The rounding clause for Area() is decided by "
+         "Apalache (MeasureBig!AreaOK, a fold over the edges in exact integers) on seeded rings with arbitrary float64 "
+         "ordinates up to 2^200 placed far from the origin: |Area - exact| <= (n+8) 2^-52 sum|trapezoid terms| / 2.",
+    ref="DESIGN.md 3.1, 3.7, 4-C09, 13.1",
+    note="Bounded: catalogue and sequence length; seeded sample for the numeric tier; the rounding bound of Length() "
+         "(square roots) is not decided. Trusted base: " + TBX,
     technique="TLA+ spec (ExactSums: Area2, Length, additivity) + TLC exhaustive enumeration of nested shapes; "
-              "observation checking by TLC")
+              "MeasureBig!AreaOK decided by Apalache on recorded float64 observations")
 CLAIMED["C14"] = dict(
     text="Model checking: ExactSums gives the mean, the length-weighted and the area-weighted centroid as exact "
          "rationals from the textbook sums (shell counted with |area|, holes with -|area|, zero total area falls "
